@@ -64,6 +64,9 @@ type schedState struct {
 	s      *sys
 	calls  []*call
 	preRes []string
+	// virtual: the execution runs under the controlled scheduler with a virtual, self-ticking clock (NowTick), so
+	// the timestamps in the log are deterministic and strictly ordered by the moment they were TAKEN
+	virtual bool
 }
 
 func doOp(s *sys, op string) string {
@@ -91,7 +94,8 @@ func (sc scen) scenario() *sched.Scenario {
 	return &sched.Scenario{
 		Name: sc.name,
 		Setup: func(x *sched.Exec) {
-			st := &schedState{s: newSys(sc.c)}
+			x.NowTick = time.Second // every clock read is one second later than the previous one
+			st := &schedState{s: newSys(sc.c), virtual: sched.Active() == x}
 			x.Data = st
 			for _, op := range sc.pre {
 				st.preRes = append(st.preRes, doOp(st.s, op))
@@ -228,13 +232,24 @@ func checkLog(sc scen, st *schedState, live map[int]block) []sched.Viol {
 	st.s.lg.Flush()
 	st.s.lg.FlushPortBlocks()
 	type rec struct {
-		EventType  string `json:"event_type"`
-		PrivateIP  string `json:"private_ip"`
-		PublicIP   string `json:"public_ip"`
-		PortStart  int    `json:"port_start"`
-		PortEnd    int    `json:"port_end"`
-		PublicPort int    `json:"public_port"`
+		EventType  string    `json:"event_type"`
+		PrivateIP  string    `json:"private_ip"`
+		PublicIP   string    `json:"public_ip"`
+		PortStart  int       `json:"port_start"`
+		PortEnd    int       `json:"port_end"`
+		PublicPort int       `json:"public_port"`
+		Timestamp  time.Time `json:"timestamp"`
 	}
+	// N4 time dimension: an auditor resolves (public address, port, TIME) with the records' timestamps. Two records
+	// about overlapping blocks must therefore carry timestamps in the order in which they were written (= the order
+	// in which the block changed hands); a later hand-over stamped EARLIER than the preceding one makes the interval
+	// in between attributable to two subscribers (or to the wrong one).
+	type stamped struct {
+		b    block
+		ts   time.Time
+		what string
+	}
+	var seen []stamped
 	held := map[string]block{}
 	assigns, releases := map[string]int{}, map[string]int{}
 	for _, line := range strings.Split(strings.TrimSpace(st.s.buf.String()), "\n") {
@@ -245,6 +260,24 @@ func checkLog(sc scen, st *schedState, live map[int]block) []sched.Viol {
 		if err := json.Unmarshal([]byte(line), &r); err != nil {
 			add("log", "unparsable log line %q", line)
 			continue
+		}
+		if st.virtual && (r.EventType == "port_block_assign" || r.EventType == "allocate" || r.EventType == "port_block_release" || r.EventType == "deallocate") {
+			stt := r.PortStart
+			if r.EventType == "allocate" || (r.EventType == "deallocate" && r.PortStart == 0) {
+				stt = r.PublicPort
+			}
+			nb := block{r.PublicIP, stt, stt + sc.c.per - 1}
+			what := fmt.Sprintf("%s %v %s", r.EventType, nb, r.PrivateIP)
+			if r.Timestamp.IsZero() {
+				add("log-time", "record %q carries no timestamp", what)
+			}
+			for _, q := range seen {
+				if q.b.pub == nb.pub && q.b.start <= nb.end && nb.start <= q.b.end && r.Timestamp.Before(q.ts) {
+					add("log-time-ambiguous", "record %q is stamped %s, EARLIER than the preceding record %q (%s) about an overlapping block: read by time, the block is attributed to two subscribers in between",
+						what, r.Timestamp.Format("15:04:05"), q.what, q.ts.Format("15:04:05"))
+				}
+			}
+			seen = append(seen, stamped{nb, r.Timestamp, what})
 		}
 		switch r.EventType {
 		case "port_block_assign", "allocate":
